@@ -1,0 +1,36 @@
+//go:build verif
+
+package redact
+
+// Contracts for the deductive checks in /verif (comment-only; see /verif/DESIGN.md).
+
+/*@
+import origFmt "fmt"
+import fmtforward "github.com/cockroachdb/redact/internal/fmtforward"
+
+-- C14: under the standard fmt package Safe(x) and Unsafe(x) print exactly like x: the wrapper's Format method makes
+-- exactly one call into fmt, with the directive rebuilt from the State it was given and the WRAPPED value as operand
+func (w unsafeWrap) Format(s origFmt.State, verb rune)
+  public verb
+  -- the ghost parser of the directive that is rebuilt starts in its initial state
+  requires [C14] fstage == 0 && !eplus && !eminus && !esharp && !espace && !ezero && !ehasw && !ehasp
+  may-panic
+  modifies alloc, memU, fstage, eplus, eminus, esharp, espace, ezero, ehasw, ew, ehasp, ep, everb, glastn, gw, gwp, gp, gpp, gfpn, gfpk, gfpa, gfpf, gfpfl, gjv, grf, grfl
+  ensures [C14] gfpn == old(gfpn) + 1 && gfpa == w.a && (gjv ==> gfpk == 1) && (!gjv ==> gfpk == 2 && sameView(gfpf, grf) && gfpfl == grfl)
+
+func (w safeWrapper) Format(s origFmt.State, verb rune)
+  public verb
+  -- the ghost parser of the directive that is rebuilt starts in its initial state
+  requires [C14] fstage == 0 && !eplus && !eminus && !esharp && !espace && !ezero && !ehasw && !ehasp
+  may-panic
+  modifies alloc, memU, fstage, eplus, eminus, esharp, espace, ezero, ehasw, ew, ehasp, ep, everb, glastn, gw, gwp, gp, gpp, gfpn, gfpk, gfpa, gfpf, gfpfl, gjv, grf, grfl
+  ensures [C14] gfpn == old(gfpn) + 1 && gfpa == w.a && (gjv ==> gfpk == 1) && (!gjv ==> gfpk == 2 && sameView(gfpf, grf) && gfpfl == grfl)
+
+func (w unsafeWrap) GetValue() (r interface{})
+  modifies nothing
+  ensures [C06,C14] r == w.a
+
+func (w safeWrapper) GetValue() (r interface{})
+  modifies nothing
+  ensures [C06,C14] r == w.a
+@*/
